@@ -15,6 +15,10 @@
 #     written, the number goes back -- the next message continues at +1 (demo Dev_SeqConsumedOnEarlyFailure:
 #     a gap). Every forced schedule ends with the same on the server's send path (response, response with
 #     an ended context, response).
+#     Calls are issued at any point of the schedule, also while the renewal holds the gate (step "call";
+#     such a sender waits and must be sent on the instance the renewal installed: InvLateOnNew). A duplicate
+#     number is attributed to the known gate gap only when the as-is model predicts one for that very
+#     schedule; otherwise it is a new violation.
 #  4. Free-running runs: senders with 1-3 chunk messages, multi-chunk responses from several server
 #     goroutines, renewals in between, counters started just below the wrap point, None and
 #     Basic256Sha256/SignAndEncrypt.
@@ -30,7 +34,7 @@ import sccorr_common as sc
 
 
 def order_class(sched):
-    keep = ("send.enter", "send.add", "chunk.write", "abort", "fail0", "renew.locked", "renew.waited", "open.copied", "open.installed", "wait.timeout")
+    keep = ("call", "send.enter", "send.add", "chunk.write", "abort", "fail0", "renew.locked", "renew.waited", "open.copied", "open.installed", "wait.timeout")
     return ",".join(s["p"][-1] + ":" + s["to"].split(".")[-1] for s in sched if s["to"] in keep)
 
 
@@ -67,13 +71,18 @@ def body(run):
         by.setdefault(order_class(b["sched"]), []).append(b)
     classes = sorted(by)
     rnd.shuffle(classes)
-    nbad, ngood = run.pick(40, 600), run.pick(40, 600)
+    nbad, ngood = run.pick(40, 600), run.pick(60, 900)
     sample = [rnd.choice(by[c]) for c in classes[:nbad]]
     ab = [b for b in good if any(st["to"] in ("abort", "fail0") for st in b["sched"])]
-    na = [b for b in good if b not in ab]
-    sample += rnd.sample(ab, min(ngood // 2, len(ab))) + rnd.sample(na, min(ngood - ngood // 2, len(na)))
+    la = [b for b in good if b.get("late") and b not in ab]      # a call issued during the renewal
+    na = [b for b in good if b not in ab and b not in la]
+    third = ngood // 3
+    sample += rnd.sample(ab, min(third, len(ab))) + rnd.sample(la, min(third, len(la))) + rnd.sample(na, min(ngood - 2 * third, len(na)))
     cases = [{"n": i, "mode": "sched", "sched": b["sched"]} for i, b in enumerate(sample)]
+    # what the as-is model (gate gap only) predicts for each schedule: a duplicate number or a clean wire;
+    # and whether a sender's call was issued while the renewal held the gate
     expect_bad = {i: (not b["stepok"]) for i, b in enumerate(sample)}
+    late = {i: bool(b.get("late")) for i, b in enumerate(sample)}
     base = len(cases)
     stress = [dict(senders=4, msgs=12, renewals=3, nearwrap=True, policy="None", secmode="None"),
               dict(senders=3, msgs=8, renewals=2, nearwrap=True, policy="Basic256Sha256", secmode="SignAndEncrypt")]
@@ -150,7 +159,12 @@ def body(run):
             run.cov["traces_validated_against_impl"] += 1
             continue
         scen = o.get("scenario", "")
-        if v["verdict"] == "stale":
+        n = r["case"].get("n") if isinstance(r.get("case"), dict) else None
+        if v["verdict"] == "stale" and scen.startswith("sched") and n in expect_bad and not expect_bad[n]:
+            # the as-is model (known gate gap included) predicts a clean wire for this schedule
+            key = ("request-issued-during-renewal-used-retired-instance" if late.get(n) else
+                   "duplicate-seq-where-the-as-is-model-predicts-none")
+        elif v["verdict"] == "stale":
             key = ("duplicate-seq-sender-captured-instance-before-renewal" if scen.startswith("sched-renew-ok") else
                    "duplicate-seq-after-failed-renewal" if scen.startswith("sched-renew-fails") else
                    "duplicate-seq-on-superseded-instance")
